@@ -78,4 +78,181 @@ theorem map_proj {l : List Worker} {G : Worker → Worker} (hG : ∀ x, wkey (G 
   simp only [wkey, Prod.mk.injEq] at a
   simp [Function.comp, a.1, a.2, b]
 
+/-- an update that changes worker records by a key- and `inSync`-preserving map, and queues only in
+fields other than identity and removability -/
+theorem cframe_of_map {s s' : State} {G : Worker → Worker}
+    (hG : ∀ x, wkey (G x) = wkey x ∧ (G x).inSync = x.inSync) (hc : s'.cleanup = s.cleanup)
+    (hw : s'.workers = s.workers.map G) (hq : ∀ q, (s'.scq? q).map (·.mayBeRemoved) = (s.scq? q).map (·.mayBeRemoved))
+    (ho : s'.ops = s.ops) (ht : s'.tasks = s.tasks) : CFrame s s' :=
+  ⟨hc, by rw [hw]; exact map_proj hG, hq, ho, fun k => by simp [State.task?, ht]⟩
+
+theorem killOp_kwc {h : Hints} {s s' : State} {now name code : Nat} (hh : killOp h s now name code = .ok s')
+    (hi : KWC noEx s) : KWC noEx s' := by
+  obtain ⟨s1, h1, ⟨_, rfl⟩ | ⟨op, s2, _, h2, rfl⟩⟩ := killOp_ok hh
+  · have := enter_kwc hi h1
+    exact ⟨KWStep.of_same (s := s1) rfl rfl rfl rfl rfl rfl this.1, this.2.frame (CFrame.of_same rfl rfl rfl rfl rfl)⟩
+  · have := complete_kwc h2 (enter_kwc hi h1)
+    exact ⟨KWStep.of_same (s := s2) rfl rfl rfl rfl rfl rfl this.1, this.2.frame (CFrame.of_same rfl rfl rfl rfl rfl)⟩
+
+theorem killQueue_kwc {h : Hints} {s s' : State} {now : Nat} {q : ScqId} {code : Nat}
+    (hh : killQueue h s now q code = .ok s') (hi : KWC noEx s) : KWC noEx s' := by
+  obtain ⟨s1, h1, ⟨ev, _, rfl⟩ | ⟨s2, h2, rfl⟩⟩ := killQueue_ok hh
+  · have := enter_kwc hi h1
+    exact ⟨KWStep.of_same (s := s1) rfl rfl rfl rfl rfl rfl this.1, this.2.frame (CFrame.of_same rfl rfl rfl rfl rfl)⟩
+  · have := cancelAllQueued_kwc h2 (enter_kwc hi h1)
+    exact ⟨KWStep.of_same (s := s2) rfl rfl rfl rfl rfl rfl this.1, this.2.frame (CFrame.of_same rfl rfl rfl rfl rfl)⟩
+
+theorem foldl_cleanup {α} (f : State → α → State) (hf : ∀ s a, (f s a).cleanup = s.cleanup) (l : List α) (s : State) :
+    (l.foldl f s).cleanup = s.cleanup := by
+  induction l generalizing s with
+  | nil => rfl
+  | cons a r ih => simp only [List.foldl_cons]; rw [ih, hf]
+
+theorem scq?_setScq_removable (s : State) (sq sq' : Scq) (q : ScqId) (hsq : s.scq? q = some sq) (hid : sq'.id = sq.id)
+    (hm : sq'.mayBeRemoved = sq.mayBeRemoved) (q' : ScqId) :
+    ((s.setScq sq').scq? q').map (·.mayBeRemoved) = (s.scq? q').map (·.mayBeRemoved) := by
+  have hidq : sq.id = q := by
+    have := List.find?_some (show s.scqs.find? (fun x => x.id = q) = some sq from hsq); simpa using this
+  rw [scq?_setScq]
+  split
+  · rename_i e
+    have : q' = q := by rw [← e, hid, hidq]
+    subst this
+    rw [hsq]; simp [hm]
+  · rfl
+
+theorem addDrain_kwc {h : Hints} {s s' : State} {now : Nat} {q : ScqId} {p : Pattern}
+    (hh : addDrain h s now q p = .ok s') (hi : KWC noEx s) : KWC noEx s' := by
+  refine ⟨addDrain_kw hh hi.1, ?_⟩
+  obtain ⟨s1, h1, ⟨_, rfl⟩ | ⟨sq, hsq, rfl⟩⟩ := addDrain_ok hh
+  · exact (enter_kwc hi h1).2.frame (CFrame.of_same rfl rfl rfl rfl rfl)
+  · obtain ⟨⟨hk, hw⟩, hc⟩ := enter_kwc hi h1
+    let s0 := s1.setScq { sq with drains := if sq.drains.contains p then sq.drains else sq.drains ++ [p] }
+    have hmap := foldl_workers_map (drainWake q p) (drainG q p) (wkey_drainG q p) (drainWake_workers q p)
+      s1.workers s0 hw.uniq hw.uniq (fun _ h => h)
+    obtain ⟨f1, f2, _, _, f5⟩ := foldl_fields (drainWake q p)
+      (by intro a b; unfold drainWake; split <;> exact ⟨rfl, rfl, rfl, rfl, rfl⟩) s1.workers s0
+    have fc := foldl_cleanup (drainWake q p) (by intro a b; unfold drainWake; split <;> rfl) s1.workers s0
+    refine hc.frame (cframe_of_map (G := fun x => if wkey x ∈ s1.workers.map wkey then drainG q p x else x) ?_ fc hmap ?_ f2 f1)
+    · intro x; split
+      · exact ⟨wkey_drainG q p x, by unfold drainG; split <;> rfl⟩
+      · exact ⟨rfl, rfl⟩
+    · intro q'
+      have : (emit (s1.workers.foldl (drainWake q p) s0) .opOk).scq? q' = s0.scq? q' := by simp [State.scq?, f5]
+      rw [this]
+      exact scq?_setScq_removable s1 sq { sq with drains := if sq.drains.contains p then sq.drains else sq.drains ++ [p] }
+        q hsq rfl rfl q'
+
+theorem removeDrain_kwc {h : Hints} {s s' : State} {now : Nat} {q : ScqId} {p : Pattern}
+    (hh : removeDrain h s now q p = .ok s') (hi : KWC noEx s) : KWC noEx s' := by
+  refine ⟨removeDrain_kw hh hi.1, ?_⟩
+  obtain ⟨s1, h1, ⟨_, rfl⟩ | ⟨sq, hsq, rfl⟩⟩ := removeDrain_ok hh
+  · exact (enter_kwc hi h1).2.frame (CFrame.of_same rfl rfl rfl rfl rfl)
+  · refine (enter_kwc hi h1).2.frame ⟨rfl, rfl, ?_, rfl, fun _ => rfl⟩
+    intro q'
+    exact scq?_setScq_removable s1 sq { sq with drains := sq.drains.filter (· ≠ p), undrainGen := sq.undrainGen + 1 }
+      q hsq rfl rfl q'
+
+theorem terminate_kwc {h : Hints} {s s' : State} {now id : Nat} {p : Pattern}
+    (hh : terminate h s now id p = .ok s') (hi : KWC noEx s) : KWC noEx s' := by
+  refine ⟨terminate_kw hh hi.1, ?_⟩
+  obtain ⟨s1, h1, h2⟩ := terminate_ok hh
+  simp only at h2
+  obtain ⟨⟨hk, hw⟩, hc⟩ := enter_kwc hi h1
+  have hsub : ((s1.workers.filter (fun w => p.matches w.id)).map wkey).Nodup :=
+    List.Nodup.sublist (List.Sublist.map _ List.filter_sublist) hw.uniq
+  have hmap := foldl_workers_map termMark termG wkey_termG termMark_workers
+    (s1.workers.filter (fun w => p.matches w.id)) s1 hw.uniq hsub (fun _ h => (List.mem_filter.1 h).1)
+  obtain ⟨f1, f2, _, _, f5⟩ := foldl_fields termMark
+    (by intro a b; unfold termMark; (repeat' split) <;> exact ⟨rfl, rfl, rfl, rfl, rfl⟩)
+    (s1.workers.filter (fun w => p.matches w.id)) s1
+  have fc := foldl_cleanup termMark (by intro a b; unfold termMark; (repeat' split) <;> rfl)
+    (s1.workers.filter (fun w => p.matches w.id)) s1
+  have fr : CFrame s1 ((s1.workers.filter (fun w => p.matches w.id)).foldl termMark s1) := by
+    refine cframe_of_map (G := fun x => if wkey x ∈ (s1.workers.filter (fun w => p.matches w.id)).map wkey then termG x else x)
+      ?_ fc hmap (fun q' => by simp [State.scq?, f5]) f2 f1
+    intro x; split
+    · exact ⟨wkey_termG x, by unfold termG; split <;> rfl⟩
+    · exact ⟨rfl, rfl⟩
+  rcases h2 with ⟨_, rfl⟩ | ⟨_, rfl⟩ <;> exact (hc.frame fr).frame (CFrame.of_same rfl rfl rfl rfl rfl)
+
+theorem termWake_kwc {s s' : State} {id reason : Nat} (hh : termWake s id reason = .ok s') (hi : KWC noEx s) :
+    KWC noEx s' := by
+  refine ⟨termWake_kw hh hi.1, ?_⟩
+  obtain ⟨tc, _, ⟨_, rfl⟩ | ⟨_, _, rfl⟩⟩ := termWake_ok hh <;> exact hi.2.frame (CFrame.of_same rfl rfl rfl rfl rfl)
+
+theorem registerPQ_cinv (s : State) (id : Nat) (comps : List Nat) (pf : Nat) (sizes : List Nat) (bm : Nat) (bp : Int)
+    (hc : CInv noEx s) : CInv noEx (registerPQ s id comps pf sizes bm bp) := by
+  -- lookups: an existing queue is still found first; a new one is not removable
+  have hlk : ∀ q sq', (registerPQ s id comps pf sizes bm bp).scq? q = some sq' →
+      s.scq? q = some sq' ∨ (s.scq? q = none ∧ sq'.mayBeRemoved = false) := by
+    intro q sq' e
+    have e' : (s.scqs ++ sizes.map (fun sc => ({ id := ⟨id, sc⟩, mayBeRemoved := false, drains := [], undrainGen := 0 } : Scq))).find?
+        (fun y => y.id = q) = some sq' := e
+    rw [List.find?_append] at e'
+    cases hs : s.scqs.find? (fun y => y.id = q) with
+    | some y => rw [hs] at e'; simp at e'; exact .inl (by rw [← e']; exact hs)
+    | none =>
+      rw [hs] at e'; simp only [Option.none_or] at e'
+      obtain ⟨_, _, rfl⟩ := List.mem_map.1 (List.mem_of_find?_eq_some e')
+      exact .inr ⟨hs, rfl⟩
+  have hkeep : ∀ q sq, s.scq? q = some sq → (registerPQ s id comps pf sizes bm bp).scq? q = some sq := by
+    intro q sq e
+    show (s.scqs ++ _).find? (fun y => y.id = q) = some sq
+    rw [List.find?_append]
+    have : s.scqs.find? (fun y => y.id = q) = some sq := e
+    rw [this]; rfl
+  refine ⟨hc.uniq, hc.wIn, hc.wOut, hc.eW, hc.eO, ?_, hc.opBg, hc.opFg, hc.opT, ?_, ?_, hc.exScq, hc.exWk⟩
+  · intro q hh
+    obtain ⟨⟨sq, e1, e2⟩, b⟩ := hc.eS q hh
+    exact ⟨⟨sq, hkeep q sq e1, e2⟩, b⟩
+  · intro q sq e hb hx
+    rcases hlk q sq e with e1 | ⟨_, e2⟩
+    · exact hc.scqW q sq e1 hb hx
+    · rw [e2] at hb; cases hb
+  · intro wk hm
+    obtain ⟨sq, e⟩ := hc.wScq wk hm
+    exact ⟨sq, hkeep _ sq e⟩
+
+/-- **Every segment** preserves the cleanup accounting invariant (together with key discipline and
+worker invariant). -/
+theorem step_kwc {s s' : State} {g : Seg} (hstep : step s g = .ok s') (hi : KWC noEx s) : KWC noEx s' := by
+  cases g with
+  | register id comps pf sizes bm bp =>
+    simp only [step, pure_ok] at hstep; subst hstep
+    exact ⟨registerPQ_kw s id comps pf sizes bm bp hi.1, registerPQ_cinv s id comps pf sizes bm bp hi.2⟩
+  | exec h now c0 d dk dnc comps pf inv prio => exact execArrive_kwc hstep hi
+  | wait h now c0 name => exact waitArrive_kwc hstep hi
+  | streamWake h now c0 reason => exact streamWake_kwc hstep hi
+  | sync h now q comps pf w rep pi => exact syncArrive_kwc hstep hi
+  | syncWake h now q w reason => exact syncWake_kwc hstep hi
+  | killOp h now name code => exact killOp_kwc hstep hi
+  | killQueue h now q code => exact killQueue_kwc hstep hi
+  | addDrain h now q p => exact addDrain_kwc hstep hi
+  | removeDrain h now q p => exact removeDrain_kwc hstep hi
+  | terminate h now id p => exact terminate_kwc hstep hi
+  | termWake id reason => exact termWake_kwc hstep hi
+  | touch h now => exact enter_kwc hi hstep
+
+theorem cinv_init (cfg : Cfg) : CInv noEx (State.init cfg) := by
+  have hno : ∀ k, ¬ hasK (State.init cfg) k := by intro k ⟨e, he, _⟩; simp [State.init] at he
+  refine ⟨by simp [State.init], ?_, ?_, ?_, ?_, ?_, ?_, ?_, ?_, ?_, ?_, (fun _ hq => nomatch hq), (fun _ _ hq => nomatch hq)⟩
+  · intro wk hm; simp [State.init] at hm
+  · intro wk hm; simp [State.init] at hm
+  · intro q w hh; exact absurd hh (hno _)
+  · intro o hh; exact absurd hh (hno _)
+  · intro q hh; exact absurd hh (hno _)
+  · intro o op e; simp [State.init, State.op?, alookup] at e
+  · intro o op e; simp [State.init, State.op?, alookup] at e
+  · intro o op e; simp [State.init, State.op?, alookup] at e
+  · intro q sq e; simp [State.init, State.scq?] at e
+  · intro wk hm; simp [State.init] at hm
+
+theorem kwc_reachable {s : State} (hs : Reachable s) : KWC noEx s := by
+  induction hs with
+  | init cfg => exact ⟨⟨keysOK_init cfg, winv_init cfg⟩, cinv_init cfg⟩
+  | step g _ hstep ih => exact step_kwc hstep ih
+
+theorem cinv_reachable {s : State} (hs : Reachable s) : CInv noEx s := (kwc_reachable hs).2
+
 end BbRe.Lemmas.SchedLive
